@@ -422,7 +422,9 @@ def write_replay(prop, n, payload):
 
 
 def write_evidence(prop, ev):
-    d = os.path.join(ROOT, "evidence")
+    # tools/seed_run.sh and tools/seed_matrix.py run the checks against a deliberately mutated tree: they divert
+    # the evidence so that the committed evidence/ always comes from /repo itself
+    d = os.environ.get("VERIF_EVIDENCE_DIR") or os.path.join(ROOT, "evidence")
     os.makedirs(d, exist_ok=True)
     with open(os.path.join(d, f"{prop}.json"), "w") as f:
         json.dump(ev, f, indent=1)
